@@ -8,7 +8,6 @@ use ttl_cache::TtlCache;
 const MIN_TWAIT: u64 = 25; // Minimum time interval (ms) - p0f value
 const MAX_TWAIT: u64 = 600000; // Maximum time interval (ms) - 10 minutes
 const MIN_TS_DIFF: u32 = 5; // Minimum timestamp difference (ticks) - p0f value
-const TSTAMP_GRACE: u64 = 100; // Tolerance for timestamps going backward (ms) - p0f value
 const MAX_FINAL_HZ: f64 = 1500.0; // Maximum frequency (Hz)
 const MIN_FINAL_HZ: f64 = 1.0; // Minimum frequency (Hz)
 const GUESS_HZ_1K: f64 = 1000.0; // Common frequency guess: 1000 Hz
@@ -223,27 +222,9 @@ fn calculate_frequency_p0f_style(
     let is_backward = ts_diff > !ts_diff;
 
     if is_backward {
-        // Timestamp went backward
-        let inverted_diff = !ts_diff;
-
-        // Validate minimum timestamp difference for backward movement
-        if inverted_diff < MIN_TS_DIFF {
-            return Err(format!(
-                "Backward timestamp difference too small: {inverted_diff} ticks < {MIN_TS_DIFF} ticks (MIN_TS_DIFF)"
-            ));
-        }
-
-        // p0f validation: reject if within grace period AND backward amount is too large
-        // Formula: (~ts_diff) / 1000 < MAX_TSCALE / TSTAMP_GRACE
-        // This rejects backwards movements that would imply unreasonably high frequencies
-        if ms_diff < TSTAMP_GRACE {
-            let max_backward_ticks = (MAX_FINAL_HZ / TSTAMP_GRACE as f64) * 1000.0;
-            if (inverted_diff as f64) > max_backward_ticks {
-                return Err(format!(
-                    "Backward timestamp too large within grace period: {inverted_diff} ticks > {max_backward_ticks:.0} max"
-                ));
-            }
-        }
+        // A timestamp that moved backward is not a steady clock: withhold the estimate
+        // (p0f computes a negative frequency here, which its range check rejects).
+        return Err(format!("Timestamp went backward by {} ticks", !ts_diff));
     } else {
         // Forward movement - validate minimum difference
         if ts_diff < MIN_TS_DIFF {
@@ -253,16 +234,9 @@ fn calculate_frequency_p0f_style(
         }
     }
 
-    // Calculate frequency with backward timestamp handling
+    // Calculate frequency (forward progression only; backward movement returned above)
     let effective_ms_diff = ms_diff.max(1);
-    let raw_freq = if ts_diff > !ts_diff {
-        // Timestamp went backward - use inverted difference
-        let inverted_diff = !ts_diff;
-        (inverted_diff as f64 * 1000.0) / (effective_ms_diff as f64)
-    } else {
-        // Normal forward progression
-        (ts_diff as f64 * 1000.0) / (effective_ms_diff as f64)
-    };
+    let raw_freq = (ts_diff as f64 * 1000.0) / (effective_ms_diff as f64);
 
     // Validate frequency range
     if !(MIN_FINAL_HZ..=MAX_FINAL_HZ).contains(&raw_freq) {
